@@ -1,7 +1,8 @@
 """C07 corpus: every template of <= n constructs over the alphabet the property names.
 
 Alphabet (property statement: "templates mixing output, capture, ifchanged, include, render, cycle and
-loops with multi-byte text"): literal text of 1-, 2-, 3- and 4-byte UTF-8 characters, output statements,
+loops with multi-byte text"): literal text of 1-, 2-, 3- and 4-byte UTF-8 characters and of the line endings
+"\\r", "\\r\\n", "\\n\\r" (also inside the partials, the captured text and the data), output statements,
 assign (the tag the namespace limit is documented with), cycle, include, render (one and two partial
 levels, with and without ``for``), and the blocks for / capture / ifchanged.  Enumeration is done by the
 shared generator ``mc.gen.programs.programs`` (complete up to the size bound, simplest first).
@@ -15,7 +16,9 @@ from mc.gen.programs import programs
 
 # -- leaves -----------------------------------------------------------------------------------------
 TEXT = ["a", "é", "€", "\U0001d11e"]  # 1, 2, 3, 4 UTF-8 bytes
-LEAVES_FULL: list[str] = TEXT + [
+# carriage returns: a limited stream must not translate line endings ("\r\n" / "\r" -> "\n")
+NEWLINES = ["\r", "\r\n", "\n\r"]
+LEAVES_FULL: list[str] = TEXT + NEWLINES + [
     "{{ x }}",
     "{{ s }}",
     "{{ v }}",
@@ -45,14 +48,14 @@ BLOCKS: list[str] = [
 # Partials.  p is included (shares the caller's namespace, captures into the caller's ``s``);
 # q is rendered (own namespace: sizes must be carried) and itself renders r (two carried levels).
 PARTIALS: dict[str, str] = {
-    "p": "[{{ v }}é{% capture s %}€{{ x }}{% endcapture %}]",
-    "q": "<\U0001d11e{% assign t = v %}{% capture u %}{{ t }}é{% endcapture %}{{ u }}{% render 'r', x: x %}>",
-    "r": "({% assign w = x %}{{ w }}{% ifchanged %}€{% endifchanged %})",
+    "p": "[{{ v }}é\r{% capture s %}€\r\n{{ x }}{% endcapture %}]",
+    "q": "<\U0001d11e\n\r{% assign t = v %}{% capture u %}{{ t }}é\r{% endcapture %}{{ u }}{% render 'r', x: x %}>",
+    "r": "({% assign w = x %}{{ w }}{% ifchanged %}€\r\n{% endifchanged %})",
 }
 
 DATA: list[tuple[str, dict[str, Any]]] = [
     ("M0", {"x": "é€", "a": ["a", "éé", "\U0001d11e"]}),
-    ("M1", {"x": "\U0001d11eb", "a": [7, "€€"]}),
+    ("M1", {"x": "\U0001d11e\r\nb\r", "a": [7, "€\n\r€"]}),
     ("M2", {}),
     ("M3", {"x": "é" * 20, "a": ["ab", "ab", "é€", 12345]}),
 ]
